@@ -58,9 +58,19 @@ WHENCE = {'os.SEEK_SET': 0, 'os.SEEK_CUR': 1, 'os.SEEK_END': 2,
           'io.SEEK_SET': 0, 'io.SEEK_CUR': 1, 'io.SEEK_END': 2}
 
 
+MODULE = [None]       # the parsed constraints.py (for module constants)
+
+
 def _int(node):
     if ast.unparse(node) in WHENCE:
         return WHENCE[ast.unparse(node)]
+    if isinstance(node, ast.Name) and MODULE[0] is not None:
+        # a literal behind a single-assignment module constant
+        from pyexpr import resolve_const, Untranslatable
+        try:
+            node = resolve_const(MODULE[0], node)
+        except Untranslatable as exc:
+            raise Bad(str(exc)) from None
     if isinstance(node, ast.Constant) and isinstance(node.value, int) \
             and not isinstance(node.value, bool):
         return node.value
@@ -100,8 +110,36 @@ def seek_sites(fn):
         else:
             sites.append(_z(_int(c.args[0])))
     body = "; ".join(f"fun cached orig newoff len => {s}" for s in sites)
-    return ("Definition apply_seek_sites : list (Z -> Z -> Z -> Z -> Z) :=\n"
-            f"  [{body}].\n", sites)
+    txt = ("Definition apply_seek_sites : list (Z -> Z -> Z -> Z -> Z) :=\n"
+           f"  [{body}].\n")
+    # the test that chooses between fd.seek(orig_offset) and
+    # fd.seek(new_offset) in the try body, as a function of
+    # (new_offset is None, destructive)
+    ifs = [n for n in tries[0].body if isinstance(n, ast.If) and
+           _calls(n, 'fd.seek')]
+    if len(ifs) != 1:
+        raise Bad("apply_to_file: one if with fd.seek in the try body")
+
+    def cond(e):
+        if isinstance(e, ast.BoolOp):
+            op = '&&' if isinstance(e.op, ast.And) else '||'
+            return "(" + f" {op} ".join(cond(v) for v in e.values) + ")"
+        if isinstance(e, ast.UnaryOp) and isinstance(e.op, ast.Not):
+            return f"(negb {cond(e.operand)})"
+        if isinstance(e, ast.Name) and e.id == 'destructive':
+            return 'destructive'
+        if isinstance(e, ast.Compare) and len(e.ops) == 1 and \
+                ast.unparse(e.left) == 'new_offset' and \
+                isinstance(e.comparators[0], ast.Constant) and \
+                e.comparators[0].value is None:
+            if isinstance(e.ops[0], ast.Is):
+                return 'newoff_is_none'
+            if isinstance(e.ops[0], ast.IsNot):
+                return '(negb newoff_is_none)'
+        raise Bad(f"apply_to_file seek test: `{ast.unparse(e)}`")
+    txt += ("Definition apply_body_test (newoff_is_none destructive : bool)"
+            f" : bool :=\n  {cond(ifs[0].test)}.\n")
+    return txt, sites
 
 
 def _tfld_arg(c, lenexpr=None):
@@ -466,6 +504,7 @@ def generate(repo):
     with open(os.path.join(repo, 'searchkit', 'constraints.py'),
               encoding='utf-8') as f:
         tree = ast.parse(f.read())
+    MODULE[0] = tree
     text = ("(* GENERATED from the repository working tree by "
             "translator/plugins/seek.py - do not edit *)\n"
             "From Coq Require Import String ZArith List Bool.\n"
